@@ -59,6 +59,12 @@ class Entity(ABC):
             str2uuid(uid) if isinstance(str2uuid(uid), uuid.UUID) else uuid.uuid4()
         )
 
+
+        # Refuse an identifier already owned by a live entity of any kind, before the
+        # parent adopts this one or any other attribute is set.
+        if self.workspace.find_entity(self._uid) is not None:
+            raise RuntimeError(f"Key '{self._uid}' already used.")
+
         self._allow_delete = True
         self._allow_move = True
         self._allow_rename = True
